@@ -7,6 +7,7 @@ from vlib import *
 OVERLAY = {
     "core/record/zz_c08_export_verif_test.go": "harness/overlay/record/c08_export_verif_test.go",
     "core/record/zz_c08_verif_test.go": "harness/overlay/record/c08_verif_test.go",
+    "core/record/zz_c08_rsa8192_verif_test.go": "harness/overlay/record/c08_rsa8192_verif_test.go",
 }
 PKG = "core/record"
 
@@ -15,6 +16,8 @@ def consts(ctx):
     # maxInlineKeyLength: keys whose marshalled form is at most this long are inlined in the ID
     ctx.gen_consts_go("core/peer", ["maxInlineKeyLength"],
                       exprs={"advancedEnableInlining": "map[bool]int{false: 0, true: 1}[AdvancedEnableInlining]"})
+    # RSA key size bounds (MinRsaKeyBits is a variable: 2048 unless LIBP2P_ALLOW_WEAK_RSA_KEYS is set)
+    ctx.gen_consts_go("core/crypto", ["maxRsaKeyBits"], exprs={"minRsaKeyBits": "MinRsaKeyBits"})
 
 
 def harness(ctx, casefile, tier, seed):
@@ -35,7 +38,8 @@ def replay_harness(ctx, casefile, toks):
 
 KIND = {1: "varint-encode", 2: "varint-decode", 3: "makeUnsigned", 4: "makeUnsigned-colliding-concatenations",
         5: "key/peer-ID forms", 6: "envelope consumption", 7: "signature verification",
-        8: "marshalled public key edit", 9: "peer.Decode", 10: "IDFromBytes/ExtractPublicKey"}
+        8: "marshalled public key edit", 9: "peer.Decode", 10: "IDFromBytes/ExtractPublicKey",
+        11: "non-canonical serialization of a key", 12: "MatchesPublicKey", 13: "RSA key size boundary"}
 
 
 class Rd:
@@ -79,7 +83,7 @@ def describe(t):
             d["UnmarshalEnvelope"] = {"ok": r.z(), "payload_type_hex": r.b().hex(), "payload_hex": r.b().hex()[:120]}
             res = r.z()
             d["result"] = {0: "rejected: unmarshal", 1: "ACCEPTED", 2: "rejected: signature/domain", 3: "validated, payload not a record", 4: "other"}.get(res)
-            d["accepted"] = {"signer_hex": r.b().hex()[:80], "payload_type_hex": r.b().hex(), "payload_hex": r.b().hex()[:120]}
+            d["accepted"] = {"signer_hex": r.b().hex()[:80], "payload_type_hex": r.b().hex(), "payload_hex": r.b().hex()[:120], "signer_id_hex": r.b().hex()}
             d["peerstore"] = {0: "not attempted", 1: "ACCEPTED", 2: "rejected: id mismatch", 3: "rejected"}.get(r.z())
             d["record_peer_id_hex"] = r.b().hex()
         elif k in (3, 4):
@@ -94,6 +98,14 @@ def describe(t):
         elif k == 7:
             d["same_key"] = r.z(); d["msg_hex"] = r.b().hex()[:80]; d["sig_hex"] = r.b().hex()[:40]
             d["msg2_hex"] = r.b().hex()[:80]; d["sig2_hex"] = r.b().hex()[:40]; d["verified"] = r.z()
+        elif k == 11:
+            d["key_type"] = r.z(); r.b(); d["canonical_hex"] = r.b().hex()[:120]; d["id_hex"] = r.b().hex()
+            d["edited_serialization_hex"] = r.b().hex()[:200]; d["class"] = r.z(); d["equals_original"] = r.z()
+            d["remarshalled_hex"] = r.b().hex()[:120]; d["id_of_parsed_hex"] = r.b().hex()
+        elif k == 12:
+            r.b(); r.b(); d["id_of_key_hex"] = r.b().hex(); d["probe_id_hex"] = r.b().hex(); d["matches"] = r.z()
+        elif k == 13:
+            d["modulus_bits"], d["private"], d["class(3=accepted)"], d["roundtrip"] = t[1:5]
         elif k in (9,):
             d["text"] = r.b().decode("latin1"); d["accepted"] = r.z(); d["id_hex"] = r.b().hex()
         else:
@@ -106,7 +118,7 @@ def describe(t):
 def nontrivial(line):
     # non-trivial: an envelope / signature / key edit case, or a colliding-concatenation pair
     k = line.split(b" ", 1)[0]
-    return k in (b"4", b"6", b"7", b"8")
+    return k in (b"4", b"6", b"7", b"8", b"11", b"12", b"13")
 
 
 def key(tag, toks, d):
@@ -118,6 +130,12 @@ def key(tag, toks, d):
         desc = describe(toks)
         return "C08:envelope:clause%s:mode=%s:result=%s:peerstore=%s:asked=%s" % (
             clause, toks[1], desc.get("result"), desc.get("peerstore"), desc.get("domain_asked"))
+    if k == 11:   # key bytes are fresh per run: identify by key type and outcome
+        return "C08:%s:clause%s:keytype=%s" % (KIND[k], clause, toks[1])
+    if k == 12:
+        return "C08:%s:clause%s:matches=%s" % (KIND[k], clause, toks[-1])
+    if k == 13:
+        return "C08:%s:clause%s:bits=%s:private=%s:class=%s:roundtrip=%s" % ((KIND[k], clause) + tuple(toks[1:5]))
     return "C08:%s:clause%s:%s" % (KIND.get(k, k), clause, " ".join(map(str, toks[1:40])))
 
 
@@ -133,6 +151,10 @@ def what(tag, toks, d):
         (3, 32): "makeUnsigned output is not three length-prefixed fields",
         (4, 41): "two different (domain, type, payload) triples have the same signed pre-image",
         (8, 81): "an accepted public key does not survive Marshal/Unmarshal",
+        (11, 111): "a key equal to the original (parsed from another serialization) has a DIFFERENT peer ID",
+        (11, 112): "a key equal to the original (parsed from another serialization) marshals to different bytes",
+        (12, 121): "MatchesPublicKey disagrees with 'the ID is IDFromPublicKey(pk)' (an alias ID matched, or the real ID did not)",
+        (13, 131): "an RSA key of a size that can be generated does not unmarshal / round-trip",
     }.get((k, clause))
     if msg is None and k == 5:
         msg = "key / peer ID round trip failed (flag %s: 1 unmarshal, 2 private key, 3 determinism, 4 base58, 5 CID, 6/7 ExtractPublicKey, 8 MatchesPublicKey, 9 binary/text/JSON)" % clause
@@ -166,6 +188,6 @@ if __name__ == "__main__":
              "non-minimal varints/enum truncation), foreign key and foreign signature pairings, re-sealing by a foreign key, wrong domains. "
              "Byte-level functions (uvarint, makeUnsigned, MarshalPublicKey, IDFromPublicKey, base58/CID text, multihash, protobuf scan of "
              "every mutated envelope/key) are compared byte for byte with the Coq model (conform_case); every attempt is judged by the "
-             "property monitor (monitor_case). Non-trivial = envelope, signature, key-edit and colliding-concatenation cases.",
+             "property monitor (monitor_case). Also: every accepted non-canonical serialization of each key (unknown fields, order, redundant varints, repeated fields) stand-alone and inside envelopes must give an equal key with the same marshalled form and the same ID; alias IDs (identity multihash over such serializations, inline form of hashed keys, hashed form of inlined keys) as MatchesPublicKey probes and as PeerRecord.PeerID through both peerstores; RSA moduli of 1024..16384 bits around MinRsaKeyBits/maxRsaKeyBits plus one embedded real 8192-bit key pair (private/public round trip, all ID forms, a signature). Non-trivial = envelope, signature, key-edit, alias, MatchesPublicKey, RSA-size and colliding-concatenation cases.",
         describe=describe, key=key, what=what, crosscheck=60,
     ))
